@@ -369,7 +369,7 @@ func (c *client) setupRequestChan() chan clientRequest {
 		for {
 			select {
 			case resp = <-cr.ready:
-				vhook("call.recv", c, cr.req.ID, resp.Error != nil)
+				vhook("call.recv", c, cr.req.ID, resp.Error != nil, resp.Error != nil && resp.Error.Code == eTempWSError)
 				break loop
 			case <-ctxDone: // send cancel request
 				ctxDone = nil
